@@ -42,7 +42,7 @@ def main():
             target = "all" if all_checks else pid
             out = sh("cd %s && ./check %s --tier quick" % (VERIF, target)).stdout
             fired = re.findall(r"VIOLATION property=(C\d+)", out)
-            rules = re.findall(r"rule=(\S+) function=(\S+) key=(.+)", out)
+            rules = re.findall(r"rule=(\S+) function=(.+?) key=(.+)", out)
             own = [x for x in fired if x == pid]
             verdict = "CAUGHT" if own else ("caught-by-other:" + ",".join(sorted(set(fired))) if fired else "MISSED")
             results.append((s, pid, verdict, "; ".join("%s %s %s" % x for x in rules[:3])[:300]))
